@@ -63,17 +63,18 @@ func TestVerifC19Net(t *testing.T) {
 		res.Violations = append(res.Violations, v)
 	}
 	var peersForStatus []string
-	mk := func(off time.Duration) *httptest.Server {
+	// the peers also report their raft state (whatever it is, a peer that answered counts)
+	mk := func(off time.Duration, state string) *httptest.Server {
 		return httptest.NewTLSServer(http.HandlerFunc(func(w http.ResponseWriter, r *http.Request) {
 			if user, pass, ok := r.BasicAuth(); !ok || user != "robustirc" || pass != "secret" {
 				http.Error(w, "Unauthorized", http.StatusUnauthorized)
 				return
 			}
 			w.Header().Set("Content-Type", "application/json")
-			json.NewEncoder(w).Encode(map[string]interface{}{"State": "Follower", "Peers": peersForStatus, "CurrentTime": time.Now().Add(off)})
+			json.NewEncoder(w).Encode(map[string]interface{}{"State": state, "Peers": peersForStatus, "CurrentTime": time.Now().Add(off)})
 		}))
 	}
-	servers := map[string]*httptest.Server{"good": mk(0), "good2": mk(0), "ahead": mk(time.Hour), "behind": mk(-time.Hour)}
+	servers := map[string]*httptest.Server{"good": mk(0, "Leader"), "good2": mk(0, "Follower"), "ahead": mk(time.Hour, "Candidate"), "behind": mk(-time.Hour, "Follower")}
 	for _, s := range servers {
 		defer s.Close()
 	}
